@@ -19,6 +19,8 @@ def env():
     e = dict(os.environ)
     e.update(ASAN_ENV)
     e.setdefault("VERIF_SEED", "0")
+    e["OMP_WAIT_POLICY"] = "passive"      # real-libgomp legs: 16 shards x n threads must not spin
+    e["GOMP_SPINCOUNT"] = "0"
     return e
 
 
